@@ -71,7 +71,10 @@ def rule_recheck(ctx, px):
                                   else "failure is swallowed or the check is applied to another variable"), r.lineno)
     # 'all' is refused
     raises = [pyfront.guard_terms(g) for st, g in pyfront.walk_guarded(f.node.body) if isinstance(st, ast.Raise) and not g == ()]
-    ok = any(("token_type_lower == 'all'", True) in t for t in raises)
+    tt_param = f.node.args.args[2].arg if len(f.node.args.args) > 2 else "token_type"
+    asg = {t.id: ast.unparse(n.value) for n in ast.walk(f.node) if isinstance(n, ast.Assign) for t in n.targets if isinstance(t, ast.Name)}
+    tt_names = {tt_param} | {k for k, v in asg.items() if v in (f"{tt_param}.lower()", f"{tt_param}.casefold()")}
+    ok = any(any(p and e in {f"{n} == 'all'" for n in tt_names} | {f"'all' == {n}" for n in tt_names} for e, p in t) for t in raises)
     ctx.ob(R, f.module.rel, f"{f.short} :: token type 'all' is refused", ok, "", f.node.lineno)
     # dry-run branches raise
     for name in ("_strop_by_keyword", "_strop_by_pattern", "_encode"):
@@ -108,15 +111,23 @@ def rule_identity(ctx, px):
                 stores.append((ast.unparse(st.value), pyfront.guard_terms(gd)))
         ok = bool(stores) and all(any(e.startswith("self._matches(") and p for e, p in t) for _, t in stores)
         ctx.ob(R, g.module.rel, f"{g.short} :: token modified only under _matches(...)", ok, f"{stores}", g.node.lineno)
-        ok = all(v == "self._stropping_prefix + stropped + self._stropping_suffix" for v, _ in stores)
+        ok = all(v == f"self._stropping_prefix + {var} + self._stropping_suffix" for v, _ in stores)
         ctx.ob(R, g.module.rel, f"{g.short} :: modification is prefix + token + suffix", ok, f"{[v for v, _ in stores]}", g.node.lineno)
     e = px.func(COMMON, "TokenEncoder._encode")
     subs = [c for c in ast.walk(e.node) if isinstance(c, ast.Call) and isinstance(c.func, ast.Attribute) and c.func.attr == "sub"]
     ok = len(subs) == 1 and ast.unparse(subs[0].args[0]) == "self._encoding_filter"
     ctx.ob(R, e.module.rel, f"{e.short} :: characters change only inside pattern.sub(self._encoding_filter, ...)", ok, "", e.node.lineno)
     m = px.func(COMMON, "TokenEncoder._matches")
-    src = ast.unparse(m.node)
-    ok = "string_or_pattern == input_string" in src and ".match(input_string)" in src
+    inp = m.node.args.args[1].arg
+    loops = [n for n in ast.walk(m.node) if isinstance(n, ast.For) and isinstance(n.target, ast.Name)]
+    ok = False
+    if loops:
+        lv = loops[0].target.id
+        eq = any(isinstance(c, ast.Compare) and len(c.ops) == 1 and isinstance(c.ops[0], ast.Eq) and {ast.unparse(c.left), ast.unparse(c.comparators[0])} == {lv, inp}
+                 for c in ast.walk(loops[0]))
+        mt = any(isinstance(c, ast.Call) and isinstance(c.func, ast.Attribute) and c.func.attr in ("match", "fullmatch") and ast.unparse(c.func.value) == lv
+                 and [ast.unparse(a) for a in c.args] == [inp] for c in ast.walk(loops[0]))
+        ok = eq and mt
     ctx.ob(R, m.module.rel, f"{m.short} :: strings compare for equality, patterns with match()", ok, "", m.node.lineno)
 
 
